@@ -378,11 +378,16 @@ pub fn run(ctx: &Ctx) -> (Outcome, String, Option<bool>) {
         let o = cross_process(ctx, 48);
         out.absorb(o);
     }
-    let rule = "For every batch of >=2 transactions met in generated histories (independent, chains, fan-in/fan-out, repeated, mutated; acceptable and unacceptable), from the state it was generated for: every permutation (all n! for n<=4, otherwise identity, reverse and 22 pseudo-random ones) x rayon pools of 1 and 4 threads; (accepted?, header of apply_tx_batch(perm).seal(with a fixed proposer action, so that the fee-pool / tips split is visible)) must be identical for all, and - when accepted - equal to applying the transactions one at a time in up to three different orders in which parents precede children (the set as presented, reversed, rotated). Sets include genuine proof-of-work mints (7%) from a low recorded DOSC speed. Every sealed block with >=2 transactions is re-validated by its parent through apply_block under 8 differently built HashSets (fresh RandomState, rotated/reversed insertion) on alternating pool sizes and must give the same result. Before a batch is applied, variants of it with the same signature-free bodies but stripped / bit-flipped signatures are judged on a scratch copy; they are judged again after the properly signed batch has been validated and must get the same verdict (the outcome may not depend on what the process validated earlier). Thorough tier only: 48 generated histories are additionally executed in two fresh child processes each (own hash seeds, nothing validated before) and must give the same accept/reject sequence and header hashes as in the warmed-up parent process. Non-trivial = a set with a dependency for which a tested permutation puts a child before its parent; distinct by (pre-state coin root, set of transaction hashes).".to_string();
+    let mut out = out;
+    out.absorb(crate::runner::run_sharded(ctx, "big-honest-blocks", ctx.scale(4, 48), super::c06::arb_big_block, |c, st, shard| super::c06::check_big_block(c, st, shard)));
+    let rule = "Also: honest blocks of 150-420 transactions with dependencies (C06's big-block scenarios) must be accepted by their parent under 4 differently ordered transaction sets. For every batch of >=2 transactions met in generated histories (independent, chains, fan-in/fan-out, repeated, mutated; acceptable and unacceptable), from the state it was generated for: every permutation (all n! for n<=4, otherwise identity, reverse and 22 pseudo-random ones) x rayon pools of 1 and 4 threads; (accepted?, header of apply_tx_batch(perm).seal(with a fixed proposer action, so that the fee-pool / tips split is visible)) must be identical for all, and - when accepted - equal to applying the transactions one at a time in up to three different orders in which parents precede children (the set as presented, reversed, rotated). Sets include genuine proof-of-work mints (7%) from a low recorded DOSC speed. Every sealed block with >=2 transactions is re-validated by its parent through apply_block under 8 differently built HashSets (fresh RandomState, rotated/reversed insertion) on alternating pool sizes and must give the same result. Before a batch is applied, variants of it with the same signature-free bodies but stripped / bit-flipped signatures are judged on a scratch copy; they are judged again after the properly signed batch has been validated and must get the same verdict (the outcome may not depend on what the process validated earlier). Thorough tier only: 48 generated histories are additionally executed in two fresh child processes each (own hash seeds, nothing validated before) and must give the same accept/reject sequence and header hashes as in the warmed-up parent process. Non-trivial = a set with a dependency for which a tested permutation puts a child before its parent; distinct by (pre-state coin root, set of transaction hashes).".to_string();
     (out, rule, None)
 }
 
 pub fn replay(case: &serde_json::Value) -> Check {
+    if case.get("fan").is_some() {
+        return super::c06::replay(case);
+    }
     super::hist::replay_history(case, &profile(), C03::new(200))
 }
 
